@@ -34,6 +34,7 @@ CHECKS = {
     "C15": ("p_history", "c15"),
     "C19": ("p_capacity", "c19"),
     "C16": ("p_bounds", "c16"),
+    "C20": ("p_models", "c20"),
 }
 
 
